@@ -1,4 +1,5 @@
 import ADProofsM.AnalysisProofs
+import ADProofsM.IntervalProofs
 /-!
 # C12 — catalogs: the edge-wrap heuristic (analysis.py:635-643)
 
@@ -38,3 +39,14 @@ theorem C12_wrap_noop_one_side (n : Nat) (xs : List Rat) (hne : xs ≠ []) :
     ((∀ x ∈ xs, 2 * x < (n : Rat)) → Catalog.wrapAxis n xs = xs) ∧
     ((∀ x ∈ xs, ¬ 2 * x < (n : Rat)) → Catalog.wrapAxis n xs = xs) :=
   ⟨fun h => P13.wrapAxis_noop_low n xs hne h, fun h => P13.wrapAxis_noop_high n xs h⟩
+
+/-- **C12 (data without wrap-around are never altered).** If the coordinates a structure occupies
+along an axis form an interval of `[0, n)` — which is the case for the projection of a connected
+structure on a non-periodic axis, where every step changes a coordinate by at most one
+(`C12_interval_of_unit_steps`) — the heuristic leaves the index array as it is. -/
+theorem C12_wrap_noop_of_interval (n : Nat) (xs : List Nat) (hne : xs ≠ []) (hr : ∀ x ∈ xs, x < n)
+    (hi : P29.IsInterval xs) :
+    Catalog.wrapAxis n (xs.map (fun (x : Nat) => (x : Rat))) = xs.map (fun (x : Nat) => (x : Rat)) :=
+  P29.wrap_noop_of_interval n xs hne hr hi
+theorem C12_interval_of_unit_steps (xs : List Nat) (h : ∀ a ∈ xs, ∀ b ∈ xs, a < b → a + 1 ∈ xs) :
+    P29.IsInterval xs := P29.isInterval_of_succ_closed xs h
